@@ -134,3 +134,7 @@ func FieldType[T any](name string) string { return "" }
 // array name contains one of the given strings. For specification functions
 // that stand for calls to unknown code (verif:dyncall, verif:fieldfn).
 func HavocExcept(keep ...string) {}
+
+// Visited: the range statement currently running over map m has already
+// visited key k (ghost state; for loop invariants of range-over-map loops).
+func Visited[K comparable, V any](m map[K]V, k K) bool { return false }
